@@ -12,6 +12,9 @@ func VerifValidateImpl(configArgs map[string]string) ([]string, error) { return 
 func VerifGenerateImpl(configArgs map[string]string) (*packaging.PackageInfo, []string, error) {
 	return generateImpl(configArgs)
 }
+func VerifUpdatePackageInfoFromArgs(p *packaging.PackageInfo, configArgs map[string]string) error {
+	return updatePackageInfoFromArgs(p, configArgs)
+}
 func VerifValidatePackage(p *packaging.PackageInfo) (*dsl.Environment, []string, error) {
 	return validatePackage(p)
 }
